@@ -50,7 +50,11 @@ def self_tokens(dump):
             txt = bytes(c for c in txt if c not in b" \t\r\n")
         if not txt and t not in ("VBRACE_OPEN", "VBRACE_CLOSE"):
             continue
-        kind = t if t in ("MACRO_FUNC", "MACRO") else ""
+        if txt and not txt.replace(b"\xe2\x90\xa4", b"").strip(b"\\\r\n \t"):
+            continue        # a line splice (backslash-newline) however it was classified: not a token
+        # MACRO_FUNC is kept (a '(' attached to / detached from the macro name changes the meaning of a #define); whether a plain
+        # macro name is classified MACRO or WORD depends on line splices in front of it and says nothing about the token stream
+        kind = t if t == "MACRO_FUNC" else ""
         out.append((kind, txt))
     if in_pp:
         out.append(("DIR)", ""))
